@@ -123,6 +123,15 @@ def handleC05VF (ty inp m : String) (out : List String) : String :=
      | _, _ => "BADLINE c05 vf out")
   | _, _, _ => "BADLINE c05 vf"
 
+/-- `c04 fs <type> <msgs>… => <emitted>…`: a sequence of check-node calls on one arithmetic object, each judged like a single call -/
+def handleC04FS (ty : String) (calls out : List String) : String :=
+  if out = ["panic"] then verdict ["ok"] out (some "panic") else
+  if calls.length ≠ out.length then "BADLINE c04 fs arity" else
+  let res := (calls.zip out).map (fun p => handleC04F ty p.1 [p.2])
+  match res.find? (fun r => !(r.startsWith "ok")) with
+  | some bad => bad
+  | none => verdict out out none
+
 /-- `c05 lf <type> (<dest.bits,…> <vars bits,…>)… => (<dest.bits,…> <vars bits,…>)…` : a SEQUENCE of layered updates on ONE
 arithmetic object (degrees vary, so stale scratch buffers would show); every call is compared with the stateless model -/
 def parseFs (s : String) : Option (List Float) :=
